@@ -90,6 +90,9 @@ func (ex *Exec) execInstr(st *State, fr *Frame, ins ssa.Instruction) {
 		p := ex.eval(fr, v.Addr).(*PtrV)
 		ex.safety(st, "nil", Not(p.Nil), ins, v.Addr)
 		ex.store(st, p, ex.eval(fr, v.Val))
+		if p.Obj != nil && p.Obj.Sym {
+			ex.event(st, &Event{Callee: "mem.store", Args: []Value{&PtrV{Nil: TFalse, Obj: p.Obj}, p}, Instr: ins, Fn: fr.Fn, Kind: "store"})
+		}
 	case *ssa.Phi:
 		// handled at block entry (non-header blocks)
 		predIdx := -1
@@ -337,6 +340,28 @@ func (ex *Exec) unop(st *State, fr *Frame, v *ssa.UnOp) {
 	case token.ARROW:
 		ch := x
 		ex.event(st, &Event{Callee: "chan.recv", Args: []Value{ch}, Instr: v, Fn: fr.Fn, Kind: "recv"})
+		if cv, ok := ch.(*ChanV); ok && cv.Obj != nil && ex.walkerOf[cv.Obj] != nil && v.CommaOk {
+			// ancestor walker: either the producer has finished and closed the channel (the walker is no
+			// longer open) or it delivers the id of a vertex that is present in the graph (A2)
+			dg := ex.walkerOf[cv.Obj]
+			closed := ex.fork(st)
+			cf := closed.Top()
+			cf.Locals[v] = &TupleV{E: []Value{ex.G.StrConst(""), TFalse}}
+			if closed.Open[cv.Obj] {
+				n := map[*Object]bool{}
+				for k, b := range closed.Open {
+					if k != cv.Obj {
+						n[k] = b
+					}
+				}
+				closed.Open = n
+			}
+			ex.push(closed)
+			k := ex.G.FreshBytes("ancestor_id", -1)
+			st.Assume(Neq(Select(ex.dagVtx(st, dg), k), IntC(0)))
+			ex.set(fr, v, &TupleV{E: []Value{k, TTrue}})
+			return
+		}
 		if v.CommaOk {
 			et := v.Type().(*types.Tuple).At(0).Type()
 			ok := Var(ex.G.name("recvok"), SBool)
@@ -351,6 +376,9 @@ func (ex *Exec) unop(st *State, fr *Frame, v *ssa.UnOp) {
 }
 
 func (ex *Exec) valEq(st *State, a, b Value, t types.Type) *Term {
+	if a == b {
+		return TTrue
+	}
 	switch x := a.(type) {
 	case *Term:
 		y, ok := b.(*Term)
@@ -403,13 +431,16 @@ func (ex *Exec) valEq(st *State, a, b Value, t types.Type) *Term {
 		}
 		return Eq(x.ID, y.ID)
 	case *SliceV:
-		// only comparison with nil is legal
+		// Go only allows comparison with nil; specs compare slice headers
 		if y, ok := b.(*SliceV); ok {
 			if y.Obj == nil {
 				return x.Nil
 			}
 			if x.Obj == nil {
 				return y.Nil
+			}
+			if x.Obj == y.Obj {
+				return And(Eq(x.Off, y.Off), Eq(x.Len, y.Len), Eq(x.Cap, y.Cap))
 			}
 		}
 	case *MapV:
@@ -622,7 +653,7 @@ func (ex *Exec) convert(st *State, fr *Frame, ins *ssa.Convert, x Value, from, t
 
 // sliceBytes returns the content (sort B) of a byte slice.
 func (ex *Exec) sliceBytes(st *State, s *SliceV) *Term {
-	if s.Obj == nil {
+	if s.Obj == nil || s.Len.IsConstInt() && s.Len.I.Sign() == 0 {
 		return ex.G.StrConst("")
 	}
 	root := ex.objVal(st, s.Obj)
@@ -972,10 +1003,25 @@ func (ex *Exec) next(st *State, fr *Frame, v *ssa.Next) {
 	}
 	var kv, vv Value
 	kt, vt := tup.At(1).Type(), tup.At(2).Type()
+	if m != nil {
+		// unused range variables have an invalid type in the Next tuple
+		if b, ok := kt.(*types.Basic); ok && b.Kind() == types.Invalid {
+			kt = m.T.Key()
+		}
+		if b, ok := vt.(*types.Basic); ok && b.Kind() == types.Invalid {
+			vt = m.T.Elem()
+		}
+	}
 	kv = ex.G.Fresh(kt, "rk")
 	vv = ex.freshStored(vt, "rv")
 	if m != nil {
-		if ms := ex.mapState(st, m); ms != nil {
+		if ms := ex.mapState(st, m); ms != nil && ms.DagOf != nil {
+			if k, ok := kv.(*Term); ok {
+				// keys of GetLeaves/GetRoots/GetVertices are ids of vertices present in the graph
+				ex.G.facts[okT.Name] = append(ex.G.facts[okT.Name], Implies(okT, Neq(Select(ex.dagVtx(st, ms.DagOf), k), IntC(0))))
+				vv = ex.dagVertexIface(st, ms.DagOf, k)
+			}
+		} else if ms != nil {
 			if k, ok := kv.(*Term); ok && k.Sort == arrKeySort(ms.Has.Sort) {
 				ex.G.facts[okT.Name] = append(ex.G.facts[okT.Name], Implies(okT, Select(ms.Has, k)))
 				if ms.Vals != nil && !hasNilLeaf(ms.Vals) {
